@@ -25,10 +25,10 @@ func VerifC08() {
 	shape := shapes[si]
 	nTasks, nKeys := shape[0], shape[1]
 	// quick tier: the 3 x 2 shape is explored without disturbances and with 2 workers only
-	focused := si == 2 && verifParam("focusThreeByTwo", 1, 0) == 1
+	focused := si == 2 && verifParam("focusThreeByTwo", 1, 1) == 1
 	workers := 2
 	if !focused {
-		workers = 1 + verifChoose("workers", verifParam("maxWorkers", 2, 3))
+		workers = 1 + verifChoose("workers", verifParam("maxWorkers", 2, 2))
 	}
 	perms := [3]state.Permissions{state.Read, state.Write, state.Allocate | state.Write}
 	nPerm := verifParam("permKinds", 3, 4) // absent, Read, Write (, Allocate|Write)
